@@ -238,6 +238,11 @@ struct FuncEmitter {
           storageAttr(VD);
           if (VD->hasGlobalStorage()) J.attribute("q", C.qname(VD));
           if (VD->getType().isConstQualified()) J.attribute("const", true);
+          if (VD->getType().isConstQualified() && VD->getType()->isIntegralOrEnumerationType() &&
+              !DR->isValueDependent()) {
+            Expr::EvalResult R;
+            if (DR->EvaluateAsInt(R, *C.AC)) J.attribute("v", R.Val.getInt().getExtValue());
+          }
         } else if (auto *FD = dyn_cast<FunctionDecl>(D)) {
           J.attribute("m", C.mangled(FD));
           J.attribute("q", C.qname(FD));
